@@ -251,6 +251,11 @@ deriving Repr, DecidableEq
 structure MecabCfg where
   cats : List (Nat × CatInfo)          -- HashMap keyed by the parsed class set
   oovs : List (Nat × List OovDef)      -- HashMap class -> lines in file order
+  /-- which `provide_oov_gen` is modelled: `false` = the pinned code (at the end of the text `char_distance` saturates and
+  the 1..n loop pushes the last candidate again for every further `i`), `true` = the repair `fix: the MeCab OOV provider
+  stops its 1..n candidates at the end of the text` (`|| sublength < i`).  Not a setting of the plugin: the harness probes
+  `plugin/oov/mecab_oov/mod.rs` and puts `mstop=1` on the case line for the repaired tree. -/
+  stopAtEnd : Bool := false
 deriving Repr, DecidableEq
 
 def findKey {α : Type} (k : Nat) : List (Nat × α) → Option α
@@ -261,13 +266,13 @@ def findKey {α : Type} (k : Nat) : List (Nat × α) → Option α
 def mkNode (b e : Nat) (d : OovDef) : Node := ⟨b, e, d.l, d.r, d.c, true, d.pos⟩
 
 /-- `for i in 1..=length { sublength = char_distance(offset, i); if sublength > llength {break}; … }`;
-`cnt` = iterations left, `i` = loop variable -/
-def lenLoop (oovs : List OovDef) (offset n llength : Nat) : Nat → Nat → List Node
+`cnt` = iterations left, `i` = loop variable; `stop` = the repaired test `sublength > llength || sublength < i` -/
+def lenLoop (stop : Bool) (oovs : List OovDef) (offset n llength : Nat) : Nat → Nat → List Node
   | 0, _ => []
   | cnt + 1, i =>
     let sub := min (offset + i) n - offset
-    if sub > llength then []
-    else oovs.map (mkNode offset (offset + sub)) ++ lenLoop oovs offset n llength cnt (i + 1)
+    if sub > llength || (stop && sub < i) then []
+    else oovs.map (mkNode offset (offset + sub)) ++ lenLoop stop oovs offset n llength cnt (i + 1)
 
 /-- body of `for ctype in input.cat_at_char(offset).iter()` -/
 def mecabClass (cfg : MecabCfg) (n offset charLen : Nat) (created : Nat) (ct : Nat) : List Node :=
@@ -280,7 +285,7 @@ def mecabClass (cfg : MecabCfg) (n offset charLen : Nat) (created : Nat) (ct : N
       | some oovs =>
         let grp := if ci.group then oovs.map (mkNode offset (offset + charLen)) else []
         let llength := if ci.group then charLen - 1 else charLen
-        grp ++ lenLoop oovs offset n llength ci.length 1
+        grp ++ lenLoop cfg.stopAtEnd oovs offset n llength ci.length 1
 
 /-- `MeCabOovPlugin::provide_oov_gen`; indexing out of range panics -/
 def mecabProvide (cfg : MecabCfg) (buf : Buf) (offset created : Nat) : Outcome (List Node) :=
@@ -593,6 +598,73 @@ def buildLatticeT (ps : List Provider) (lex : List Word) (buf : Buf) : Outcome (
 /-- every `provide_oov` call of a run, in the order they were made -/
 def allCalls (tr : List PosTrace) : List Call :=
   tr.flatMap (fun t => t.calls ++ t.fb.toList)
+
+/-! ## the builder with its provider calls recorded ALSO when the run fails
+
+`buildLatticeT` drops the trace when a step returns `Err`/panics.  The functions below are the same loop once more,
+returning the completed `provide_oov` calls (those that returned `Ok`, in the order they were made) TOGETHER with the
+outcome, so that the calls made before an `EosBosDisconnect` / a panic are part of the answer as well.
+`Proofs/OovRead.lean` shows: the outcome is `buildLattice`'s, and on success the calls are `allCalls` of
+`buildLatticeT` (`buildLatticeP_outcome`, `buildLatticeP_calls`). -/
+
+/-- `for provider in self.oov_providers`, calls kept on failure (a call that fails is not a completed call) -/
+def provideAllP (ps : List Provider) (i : Nat) (buf : Buf) (offset : Nat) (st : Nat × List Node) :
+    List Call × Outcome (Nat × List Node) :=
+  match ps with
+  | [] => ([], .ok st)
+  | p :: rest =>
+    match provideOovsT i p buf offset st with
+    | .ok (st', c) =>
+      let r := provideAllP rest (i + 1) buf offset st'
+      (c :: r.1, r.2)
+    | .err k => ([], .err k)
+    | .panic w => ([], .panic w)
+
+/-- one iteration of the position loop: completed calls + outcome -/
+def stepAtP (ps : List Provider) (lex : List Word) (buf : Buf) (offset : Nat) : List Call × Outcome (List Node) :=
+  match buf.cats[offset]? with
+  | none => ([], .panic "index")
+  | some cat =>
+    let lexN := lexNodes lex buf offset
+    let st0 : Nat × List Node := (addAll 0 lexN, lexN)
+    let loop : List Call × Outcome (Nat × List Node) :=
+      if asksProviders cat then provideAllP ps 0 buf offset st0 else ([], .ok st0)
+    match loop.2 with
+    | .err k => (loop.1, .err k)
+    | .panic w => (loop.1, .panic w)
+    | .ok st1 =>
+      if st1.1 = 0 then
+        match ps.getLast? with
+        | none => (loop.1, .panic "unwrap")
+        | some p =>
+          match provideOovsT (ps.length - 1) p buf offset st1 with
+          | .err k => (loop.1, .err k)
+          | .panic w => (loop.1, .panic w)
+          | .ok (st2, c) =>
+            if st2.1 = 0 then (loop.1 ++ [c], .err "Disconnect")
+            else (loop.1 ++ [c], .ok st2.2)
+      else (loop.1, .ok st1.2)
+
+/-- the position loop: all completed calls so far + outcome -/
+def buildFromP (ps : List Provider) (lex : List Word) (buf : Buf) :
+    List Nat → List Node → List Call → List Call × Outcome (List Node)
+  | [], nodes, cs => (cs, .ok nodes)
+  | p :: rest, nodes, cs =>
+    if !reachable nodes p then buildFromP ps lex buf rest nodes cs
+    else
+      let r := stepAtP ps lex buf p
+      match r.2 with
+      | .ok new => buildFromP ps lex buf rest (nodes ++ new) (cs ++ r.1)
+      | .err k => (cs ++ r.1, .err k)
+      | .panic w => (cs ++ r.1, .panic w)
+
+/-- `build_lattice`: every completed `provide_oov` call + the outcome (`connect_eos` makes no call) -/
+def buildLatticeP (ps : List Provider) (lex : List Word) (buf : Buf) : List Call × Outcome (List Node) :=
+  let r := buildFromP ps lex buf (List.range buf.chars.length) [] []
+  match r.2 with
+  | .ok nodes => if reachable nodes buf.chars.length then (r.1, .ok nodes) else (r.1, .err "Disconnect")
+  | .err k => (r.1, .err k)
+  | .panic w => (r.1, .panic w)
 
 /-! ## OOV word info (`resolve_best_path`, `WordId`, `WordInfo`, `Morpheme`) -/
 
